@@ -596,61 +596,23 @@ func c11RuleG(w *World, r *Report) {
 			r.fatal("anchor unresolved: parser.%s", name)
 			continue
 		}
-		// the Accept call(s)
-		var accepts []ssa.CallInstruction
-		var hasErrCalls []*ssa.Call
-		forEachInstr(fn, func(b *ssa.BasicBlock, ins ssa.Instruction) {
-			c, ok := ins.(ssa.CallInstruction)
-			if !ok {
-				return
-			}
-			if c.Common().IsInvoke() && c.Common().Method.Name() == "Accept" {
-				accepts = append(accepts, c)
-			}
-			if f := c.Common().StaticCallee(); f != nil && f.Name() == "HasErrors" && recvNamed(f) == "SyntaxErrorListener" {
-				if cv, ok := ins.(*ssa.Call); ok {
-					hasErrCalls = append(hasErrCalls, cv)
+		// the tree walks (Accept) anywhere in the entry point's unit (the entry function and the parser helpers it calls)
+		unit := newParseUnit(w, fn)
+		var accepts []ssa.Instruction
+		for _, f := range unit.funcs() {
+			forEachInstr(f, func(_ *ssa.BasicBlock, ins ssa.Instruction) {
+				if isAcceptCall(ins) {
+					accepts = append(accepts, ins)
 				}
-			}
-		})
+			})
+		}
 		if len(accepts) == 0 {
 			r.fail(rule, name+": tree visited", w.pos(fn.Pos()), "no Accept call found")
 			continue
 		}
 		gateListeners := map[ssa.Value]bool{}
 		for _, acc := range accepts {
-			gated := false
-			for _, he := range hasErrCalls {
-				// find the If on he (possibly negated)
-				for _, b := range fn.Blocks {
-					cond := branchCond(b)
-					if cond == nil {
-						continue
-					}
-					neg := false
-					c := cond
-					for {
-						if u, ok := c.(*ssa.UnOp); ok && u.Op == token.NOT {
-							neg = !neg
-							c = u.X
-							continue
-						}
-						break
-					}
-					if c != ssa.Value(he) {
-						continue
-					}
-					noErrSucc := 1
-					if neg {
-						noErrSucc = 0
-					}
-					if edgeDominates(b, noErrSucc, acc.Block()) {
-						gated = true
-						gateListeners[he.Call.Args[0]] = true
-					}
-				}
-			}
-			if gated {
+			if unit.gated(acc, 0, gateListeners) {
 				r.pass(rule, name+": Accept dominated by !HasErrors()", w.instrPos(acc), "")
 			} else {
 				r.fail(rule, name+": Accept dominated by !HasErrors()", w.instrPos(acc), "the parse tree is visited on a path where syntax errors may have been reported: mandatory children can be nil")
